@@ -247,7 +247,7 @@ def _format_filesize_run(ctx, modifier, unit_text="1.5 kB"):
             raise interp._Return("error_exit")
         return None
     env = {ps[0]["id"]: 1536, ps[1]["id"]: modifier}
-    res = interp.Interp(call=call, prog=None, max_steps=40000).run(hir, env)
+    res = interp.Interp(call=call, prog=ctx.prog, max_steps=40000).run(hir, env)
     return seen, res
 
 
@@ -331,11 +331,14 @@ def r5(ctx):
                     return (recv.replace(args[0], args[1]),)
                 return None
             env = {i: (short_flag if nm == "short_units" else interp.Opaque(nm)) for i, nm in free.items()}
-            it = interp.Interp(call=call)
+            it = interp.Interp(call=call, prog=ctx.prog)
             try:
                 res = None
-                for st in tail:
-                    res = it.run(st, env) if st is not tail[-1] else it.run(st, env)
+                try:
+                    for st in tail:
+                        res = it.ev(st, env) if st.get("k") not in ("Let",) else it.stmt(st, env)
+                except interp._Return as r_:
+                    res = r_.v          # an early `return` among the rewriting statements ends the function
             except interp.Undecided as e:
                 ctx.violation("format-suffix/undecided", ctx.where(FORMAT_FILESIZE), "cannot evaluate the unit rewriting of format_filesize: %s" % e)
                 return
